@@ -92,6 +92,47 @@ Definition model_ref_obs (p i name p2 i2 p3 i3 sep s : str) (recs : option (list
     | Raise _ => VInt 0 end
   ].
 
+(* ---- the specification ----
+   case: a reference (p, i) with a name, two further references (p2, i2), (p3, i3), a separator sep, a string s,
+   optionally the records of a converter.  T / F are Python's True / False; [1] is "ValueError". *)
+Definition T : val := VInt 1.
+Definition F : val := VInt 0.
+Definition value_error : val := VList [VInt 1].
+(* "<=" on pairs, from the lexicographic "<" *)
+Definition pair_leb (a b : str * str) : bool := negb (pair_ltb b a).
+(* split at the first occurrence of sep, or ValueError when sep does not occur *)
+Definition spec_split (sep s : str) : val :=
+  match partition sep s with Some (a, b) => vref (a, b) | None => value_error end.
+
+Definition spec_ref_obs (p i name p2 i2 p3 i3 sep s : str) (recs : option (list record)) : val :=
+  let a := (p, i) in let b := (p2, i2) in let c := (p3, i3) in
+  let printed := VStr (p ++ colon ++ i) in
+  VList [
+    (*  1 *) VList [printed; printed; printed; printed];                     (* the four classes print prefix:identifier *)
+    (*  2 *) VList [vref a; vref a; vref a; vref a];                         (* ... and parse back to the pair *)
+    (*  3 *) VList [spec_split sep s; spec_split sep s; spec_split sep s; spec_split sep s];
+    (*  4 *) VList [spec_split colon s; spec_split colon s; value_error];    (* string validation; a NamedReference lacks its name *)
+    (*  5 *) VList [T; T; T];
+    (*  6 *) VList [VList [T; F; F; F];                                      (* ==, rows / columns: Tuple, Reference, Namable, Named *)
+                    VList [F; T; T; T];
+                    VList [F; T; T; T];
+                    VList [F; T; T; T]];
+    (*  7 *) T;                                                              (* the name never matters *)
+    (*  8 *) T;
+    (*  9 *) VList [vbool (pair_ltb a b); vbool (pair_ltb b a); vbool (pair_ltb b c); vbool (pair_ltb a c);
+                    F;                                                       (* a < a never *)
+                    VList (map vref (sort pair_leb [a; b; c]))];             (* sorted() *)
+    (* 10 *) VList [T; T; T; T];
+    (* 11 *) match recs with
+             | None => VNone
+             | Some rs => VSome (match owner_by_prefix rs p with
+                                 | Some r => vref (r_prefix r, i)            (* canonical prefix, identifier unchanged *)
+                                 | None => value_error end)                  (* unknown prefix *)
+             end;
+    (* 12 *) T                                                               (* the triples rows read back *)
+  ].
+
+
 Definition no_colon (p : str) : bool := negb (existsb (N.eqb 58) p).
 Definition run_refs (case obs : val) : val :=
   match case with
@@ -103,7 +144,8 @@ Definition run_refs (case obs : val) : val :=
           let same := val_eqb m obs in
           let valid := no_colon p && no_colon p2 && no_colon p3 && negb (is_nil sep)
                        && match recs' with Some rs => strict_okb rs | None => true end in
-          VList [vbool same; vbool valid; VInt 1; vbool same; if same then VList [] else m]
+          let P := fun o => val_eqb o (spec_ref_obs p i name p2 i2 p3 i3 sep s recs') in   (* C15_P_model: P m on every valid case *)
+          VList [vbool same; vbool valid; vbool (P m); vbool (P obs); if same then VList [] else m]
       end
   | _ => VList [VInt (-1)]
   end.
